@@ -263,10 +263,12 @@ namespace awkward {
   LayoutBuilder::initialise() {
     vm_ = std::make_shared<ForthMachine32>(vm_source());
 
+    // the input slot holds one value of any primitive type (up to a complex128)
+    int64_t slot = (initial_ < 16 ? 16 : initial_);
     std::shared_ptr<void> ptr(
-      kernel::malloc<void>(kernel::lib::cpu, initial_*(int64_t)sizeof(uint8_t)));
+      kernel::malloc<void>(kernel::lib::cpu, slot*(int64_t)sizeof(uint8_t)));
 
-    vm_inputs_map_[vm_input_data_] = std::make_shared<ForthInputBuffer>(ptr, 0, initial_);
+    vm_inputs_map_[vm_input_data_] = std::make_shared<ForthInputBuffer>(ptr, 0, slot);
     vm_.get()->run(vm_inputs_map_);
   }
 
